@@ -64,12 +64,12 @@ def confirm(prop, ab, feats):
             os.makedirs(os.path.join(wt, "tests"), exist_ok=True)
             shutil.copy(demo, os.path.join(wt, "tests", "demo_%s.rs" % ab))
             democmd = "cargo test --offline%s --test demo_%s" % (fflag, ab)
-        rc1, out1 = sh(democmd + " 2>&1 | grep -E 'test result|panicked|error(\\[|:)' | head -8", cwd=wt)
+        rc1, out1 = sh(democmd + " 2>&1 | grep -E 'test result|error(\\[|:)' | head -8", cwd=wt)
         meta["ran"].append({"cmd": democmd + " (change applied)", "out": out1.strip().splitlines()})
         fails_with = "FAILED" in out1
         # 3. demo without the change
         sh("git apply -R %s" % patch, cwd=wt)
-        rc2, out2 = sh(democmd + " 2>&1 | grep -E 'test result|panicked|error(\\[|:)' | head -8", cwd=wt)
+        rc2, out2 = sh(democmd + " 2>&1 | grep -E 'test result|error(\\[|:)' | head -8", cwd=wt)
         meta["ran"].append({"cmd": democmd + " (change reverted)", "out": out2.strip().splitlines()})
         passes_without = "FAILED" not in out2 and "test result: ok" in out2 and "error" not in out2
         ok = suite_ok and fails_with and passes_without
